@@ -11,6 +11,7 @@ import (
 	schedulemanager "github.com/flant/shell-operator/pkg/schedule_manager"
 	"github.com/flant/shell-operator/pkg/task"
 	"github.com/flant/shell-operator/pkg/task/queue"
+	"github.com/flant/shell-operator/pkg/utils/verifhook"
 )
 
 type managerEventsHandlerConfig struct {
@@ -85,6 +86,8 @@ func (m *ManagerEventsHandler) Start() {
 				logEntry.Info("Stop")
 				return
 			}
+
+			verifhook.Point("meh.received", tailTasks)
 
 			m.taskQueues.DoWithLock(func(tqs *queue.TaskQueueSet) {
 				for _, resTask := range tailTasks {
